@@ -15,7 +15,8 @@
                                       has finished and been drained)
 
     With the feature "verif_loom" (only meaningful inside the scheduler harness, which
-    provides `crate::sched`) all hooks forward to the harness.
+    provides `crate::sched`) all hooks forward to the harness, and `io` in uci.rs is the
+    harness's model of standard output (every write is a scheduling point).
 */
 #![allow(dead_code)]
 
